@@ -44,6 +44,7 @@ def run(ctx: Ctx, chk) -> None:
     chk.run_rule(lambda c, k: tables.dispatch_total_rule(c, k, "incoming"), ctx)
     chk.run_rule(reject_set, ctx)
     chk.run_rule(reject_esc, ctx)
+    chk.run_rule(reject_reaches, ctx)
     chk.run_rule(tables.handler_state_rule, ctx)
     chk.run_rule(ctor_identity, ctx)
     chk.run_rule(placeholder_fresh, ctx)
@@ -142,6 +143,41 @@ def reject_esc(ctx: Ctx, chk) -> None:
                 else:
                     chk.refute(rule, key, f"{short} can propagate out of {name} (protocol {V}) from `{site.text[:70]}`: the statement lets this handler refuse a report only with {sorted(lic)}; this exception aborts the handler for some well-formed reports, which are then not recorded (or recorded but not yielded)", site.loc(), version=V)
     chk.floor(rule, "reporting handler cells", n, 30)
+
+
+def reject_reaches(ctx: Ctx, chk) -> None:
+    rule = "REJECT-REACHES"
+    chk.rule(rule, "a message that refers to an unknown node or child fails with the error that names it: on the way from the reporting handlers to Gateway.listen (handlers, decorator wrappers, listen itself) no `except` clause that can catch MissingNodeError / MissingChildError completes without raising, and no `with` statement around the handler call can swallow it (contextlib.suppress, a manager whose exit returns a truthy value) - whatever the gateway's state")
+    from .c05 import _always_reraises, _catches, suppressing_withs
+
+    errs = ("aiomysensors.exceptions.MissingNodeError", "aiomysensors.exceptions.MissingChildError")
+    funcs = [f for f in tables.all_handler_defs(ctx, include_wrappers=True)]
+    funcs.append(ctx.func("aiomysensors.gateway.Gateway.listen"))
+    n = 0
+    for f in funcs:
+        fi = ctx.inl(f, lambda h: not h.name.startswith("handle_"))
+        for h in [x for x in ctx.own_nodes(fi) if isinstance(x, ast.ExceptHandler)]:
+            tr = ctx.prog.parents.get(h)
+            if not isinstance(tr, ast.Try) or not any(isinstance(x, ast.Await) for b in tr.body for x in ast.walk(b)):
+                continue
+            if not any(_catches(ctx, fi, h, e) for e in errs):
+                continue
+            n += 1
+            chk.instance(rule)
+            key = f"{f.fq}::except {norm(h.type) if h.type is not None else ''}"
+            if _always_reraises(h):
+                chk.ok(rule, key, "the clause ends in a raise on every path", ctx.loc(fi, h), sample=n <= 2)
+            else:
+                chk.refute(rule, key, f"`except {norm(h.type) if h.type is not None else ''}` in {f.qualname} can catch the error for an unknown node / child and complete without raising: the message is yielded as if it had been handled", ctx.loc(fi, h))
+        seen_w = set()
+        for w, why in suppressing_withs(ctx, fi, errs[0]):
+            if id(w) in seen_w:
+                continue
+            seen_w.add(id(w))
+            n += 1
+            chk.instance(rule)
+            chk.refute(rule, f"{f.fq}::with::{norm(w.items[0].context_expr)[:50]}", f"the `with` statement in {f.qualname} can swallow the error for an unknown node / child ({why}): the message is yielded as if it had been handled and nobody learns that it referred to something that is not in the registry", ctx.loc(fi, w))
+    chk.floor(rule, "handlers that can see the rejection", n, 1)
 
 
 def reject_set(ctx: Ctx, chk) -> None:
